@@ -6,6 +6,7 @@ import (
 	"encoding/binary"
 	"fmt"
 	"net/http"
+	"runtime"
 	"time"
 
 	"github.com/lxzan/gws"
@@ -234,6 +235,62 @@ func runC04Handshake(c *Ctx) error {
 			c.oracleFail("client handshake returned conn and error inconsistently", "handshake-result", replay)
 		}
 		c.count(fmt.Sprintf("hs-c%d", i), true, "kind=handshake-client", fmt.Sprintf("connected=%v", conn != nil))
+	}
+	// hostile extension parameters, both roles: no panic, no hang, no allocation governed by the peer's numbers
+	vals := []string{"-1", "0", "1", "7", "8", "15", "16", "17", "24", "30", "31", "32", "33", "62", "63", "64", "65", "255", "4294967296", "99999999999999999999", "abc", "", "15x", " 12"}
+	params := []string{"server_max_window_bits", "client_max_window_bits"}
+	hostileUp := gws.NewUpgrader(&recHandler{}, &gws.ServerOption{PermessageDeflate: gws.PermessageDeflate{Enabled: true, ServerContextTakeover: true, ClientContextTakeover: true, PoolSize: 1}})
+	for _, server := range []bool{true, false} {
+		for _, pn := range params {
+			for _, v := range vals {
+				for _, both := range []bool{false, true} {
+					ext := "permessage-deflate; " + pn + "=" + v
+					if both {
+						ext = "permessage-deflate; server_max_window_bits=" + v + "; client_max_window_bits=" + v
+					}
+					pd := gws.PermessageDeflate{Enabled: true, ServerContextTakeover: true, ClientContextTakeover: true}
+					var conn *gws.Conn
+					var err error
+					_ = err
+					var pan any
+					var ms0, ms1 runtime.MemStats
+					runtime.ReadMemStats(&ms0)
+					ok := runWithTimeout(10*time.Second, func() {
+						defer func() { pan = recover() }()
+						tap := newMemConn()
+						if server {
+							conn, err = serverConnWith(hostileUp, tap, map[string][]string{"Sec-WebSocket-Extensions": {ext}})
+						} else {
+							conn, _, err = clientConn(&gws.ClientOption{HandshakeTimeout: 2 * time.Second, PermessageDeflate: pd}, &recHandler{}, tap, ext, nil)
+						}
+						if conn != nil { // use the connection once: windows and (de)compressors are sized from the negotiated values
+							tap.feed(encodeFrame(frameSpec{Fin: true, Rsv1: true, Opcode: 1, Masked: server, Key: [4]byte{1, 2, 3, 4}, Payload: rfc7692Deflate([]byte("hello hello hello"), nil, 6), DeclLen: -1}))
+							tap.setEOF()
+							_ = conn.WriteMessage(gws.OpcodeText, bytes.Repeat([]byte("abc"), 400))
+							conn.ReadLoop()
+						}
+					})
+					runtime.ReadMemStats(&ms1)
+					replay := map[string]any{"role": map[bool]string{true: "server", false: "client"}[server], "extensions": ext}
+					tag := fmt.Sprintf("server=%v ext=%q", server, ext)
+					switch {
+					case !ok:
+						c.oracleFail("handshake with hostile extension parameters hung ["+tag+"]", "handshake-hang", replay)
+					case pan != nil:
+						c.oracleFail(fmt.Sprintf("handshake with hostile extension parameters panicked: %v [%s]", pan, tag), "handshake-panic", replay)
+					case ms1.TotalAlloc-ms0.TotalAlloc > 8<<20:
+						c.oracleFail(fmt.Sprintf("%d bytes allocated for one handshake and two small messages [%s]", ms1.TotalAlloc-ms0.TotalAlloc, tag), "over-allocation", replay)
+					}
+					if conn != nil {
+						npd := conn.VerifPD()
+						if npd.Enabled && (npd.ServerMaxWindowBits < 8 || npd.ServerMaxWindowBits > 15 || npd.ClientMaxWindowBits < 8 || npd.ClientMaxWindowBits > 15) {
+							c.oracleFail(fmt.Sprintf("negotiated window bits %d/%d outside 8..15 [%s]", npd.ServerMaxWindowBits, npd.ClientMaxWindowBits, tag), "window-bits-range", replay)
+						}
+					}
+					c.count("hs-ext"+tag, true, "kind=handshake-extension-params", fmt.Sprintf("connected=%v", conn != nil))
+				}
+			}
+		}
 	}
 	return nil
 }
